@@ -19,6 +19,15 @@
 //             undeclared_fixtures: every other file's entry untouched; f's entry is removed before the visitors run
 //             (all that visit_stmt's contract lets us say about it afterwards: nothing, unless the body is empty)
 //   failure:  both maps unchanged (as before)
+// v4: f's OWN findings are in the contract (prelude/analyze_undecl.rs; visit_stmt's contract now says what it pushes):
+//   success:  undecl_view(final) == push_undecl(undecl_view(old).remove(f), f, stmts_vundecl(body, f, text, d0, module_names(body)))
+//             -- f's old list is dropped, then exactly the scans of THIS text are pushed, each against the definitions map
+//             at the moment of the scan (d0 = the map the second pass starts from, + what the earlier statements recorded)
+//             and the module-level names of THIS text; independent of what was filed under f before, for both values of
+//             cleanup_previous.  @loop 2 carries it statement by statement.
+//   L2 (analyze_undecl_l2.rs): lemma_C06_findings_are_current_text_only, lemma_C06_findings_superseded,
+//             lemma_C17_no_finding_for_module_level_name (ONE theorem: first pass + visitors + scanner),
+//             lemma_C19_findings_follow_content; canaries: accumulate / other file changes / survive an empty module.
 use rustpython_parser::{parse, Mode};
 use rustpython_parser::ast::{Stmt, Expr, Keyword, Identifier, Constant, ExceptHandler, ExprCall, Alias, Arguments, ArgWithDefault};
 use rustpython_parser::text_size::TextRange;
@@ -62,6 +71,14 @@ use super::*;
 //@include prelude/analyze_l2.rs
 //@include prelude/analyze_imports.rs
 //@include prelude/analyze_imports_l2.rs
+// v4: the findings vocabulary: the scanner's spec (unit undeclared_scan), visit_undecl (unit visit_v3), the scanner's
+// precision theorem (mechanical copy WITH proofs), and this unit's own contract / L2 about undeclared_fixtures
+//@include prelude/undecl_avail_spec.rs
+//@include prelude/undecl_spec.rs
+//@include prelude/visit_undecl.rs
+//@include prelude/undecl_precision.rs
+//@include prelude/analyze_undecl.rs
+//@include prelude/analyze_undecl_l2.rs
 // vocabulary of unit memo_keys (src_line_index / parse_ok / ast_of are this unit's own uninterpreted functions)
 //@include prelude/memokeys_spec.rs
 //@include prelude/fs_canonical_decl.rs
@@ -109,7 +126,8 @@ impl FixtureDatabase {
 //@stub memo_keys get_line_index
     // ---- the contract PROVED in unit ast_helpers: names grows by module_level_names(stmt) (prelude/ast_spec.rs)
 //@stub ast_helpers collect_module_level_names
-    // A7 DISCHARGED: the contract of visit_stmt is the one PROVED in unit visit (v2: with env_ok / vframe)
+    // A7 DISCHARGED: the contract of visit_stmt is the one PROVED in unit visit (v2: with env_ok / vframe; v3: with the
+    // file's OWN findings: uv_rel(old findings, final findings, f, visit_undecl(..)), prelude/visit_undecl.rs)
 //@stub visit visit_stmt
     // eviction: the contract PROVED in unit memo (v2: all memo tables only shrink, nothing else is written)
 //@stub memo evict_cache_if_needed
@@ -156,6 +174,20 @@ impl FixtureDatabase {
         // so the reset is visible here only when no visitor runs (no top-level statement)
         parse_ok(content@) ==> final(self).undeclared_fixtures.m().remove(canon(pbv(&file_path))) == old(self).undeclared_fixtures.m().remove(canon(pbv(&file_path))),
         parse_ok(content@) && body_of(ast_of(content@)).len() == 0 ==> !final(self).undeclared_fixtures.m().contains_key(canon(pbv(&file_path))),
+        // v4 (C06 / C17 / C19) successful parse, f's OWN findings: the old list is dropped, then EXACTLY the scans of this text
+        // are pushed (stmts_vundecl, prelude/analyze_undecl.rs: visit_undecl folded over the top-level statements; each scan
+        // reads the definitions recorded so far on top of d0 and the module-level names of THIS text) -- no dependence on
+        // what was filed under f before
+        parse_ok(content@) ==> ({
+            let f = canon(pbv(&file_path));
+            let body = body_of(ast_of(content@));
+            let d0 = if cleanup_previous { clean_defs_names(old(self).defs(), f, sbucket(old(self).fdefs(), f)) } else { old(self).defs() };
+            undecl_view(final(self).undeclared_fixtures.m()) == push_undecl(undecl_view(old(self).undeclared_fixtures.m()).remove(f), f,
+                stmts_vundecl(body, f, content@, d0, module_names(body)))
+        }),
+        // ... and the line index the positions of those findings were computed with is a line index (get_line_index, unit
+        // memo_keys, under the no-collision hypothesis): the hypothesis of the scanner's precision theorem
+        parse_ok(content@) ==> is_line_index(ints(src_line_index(content@))) && src_line_index(content@).len() <= usize::MAX,
 @start
     let ghost f0 = canon(pbv(&file_path));
 @after file_path 3
@@ -183,6 +215,9 @@ impl FixtureDatabase {
     proof {
         assert(im0.remove(f) =~= old(self).imports.m().remove(f));
         assert(un0.remove(f) =~= old(self).undeclared_fixtures.m().remove(f));
+        // v4: f's old findings are GONE before the second pass
+        assert(un0 =~= old(self).undeclared_fixtures.m().remove(f));
+        lemma_undecl_view_remove(old(self).undeclared_fixtures.m(), f);
     }
 @before for 1
     let ghost body = module.body@;
@@ -220,6 +255,9 @@ impl FixtureDatabase {
         self.imports.m() == im1, imports_entry(self.imports.m(), f) == module_names(body),
         self.undeclared_fixtures.m().remove(f) == old(self).undeclared_fixtures.m().remove(f),
         it.index@ == 0 ==> self.undeclared_fixtures.m() == un0,
+        // v4: what is filed under f so far = the scans of the statements visited so far, pushed onto the EMPTIED entry
+        undecl_view(self.undeclared_fixtures.m()) == push_undecl(undecl_view(un0), f,
+            stmts_vundecl(body.take(it.index@ as int), f, content@, d0, module_names(body))),
         self.env_ok(), li_cache_wf(self.line_index_cache.m()), canon_cache_wf(self.canonical_path_cache.m()),
         f == pbv(&file_path), body == module.body@, it.seq() == body.as_ref(),
         (*line_index)@ == src_line_index(content@), is_line_index(ints((*line_index)@)), module_pre(body, (*line_index)@),
@@ -231,6 +269,9 @@ impl FixtureDatabase {
         self.byfix() == push_byfix(b0, stmts_vuses(body.take(it.index@ as int), f, content@)),
 @loopstart 2
     let ghost i0 = it.index@ as int;
+    let ghost uma = self.undeclared_fixtures.m();   // v4: what visit_stmt starts from
+    let ghost dfa = self.defs();
+    let ghost ima = self.imports.m();
     proof { assert(body[i0] == *stmt); assert(visit_pre(body[i0], (*line_index)@)); }
 @loopend 2
     proof {
@@ -245,6 +286,13 @@ impl FixtureDatabase {
         lemma_push_byfix_concat(b0, stmts_vuses(t0, f, content@), vuses(body[i0], f, content@));
         lemma_stmts_vdefs_len_mono(body, i0 + 1, f, content@);
         lemma_bumpn_no_wrap((old(self).version() + 1 + stmts_vdefs(t0, f, content@).len()) as u64, vdefs(body[i0], f, content@).len() as int);
+        // v4: visit_stmt's PROVED contract (unit visit_v3), spelled out ...
+        lemma_uv_open(uma, self.undeclared_fixtures.m(), f, visit_undecl(body[i0], f, content@, (*line_index)@, dfa, imps_of(ima, f)));
+        assert(imps_of(ima, f) == module_names(body) && dfa == push_defs(d0, stmts_vdefs(t0, f, content@)));
+        // ... is one more round of the fold
+        lemma_stmts_vundecl_step(body, i0, f, content@, d0, module_names(body));
+        lemma_push_undecl_concat(undecl_view(un0), f, stmts_vundecl(t0, f, content@, d0, module_names(body)),
+            visit_undecl(body[i0], f, content@, src_line_index(content@), push_defs(d0, stmts_vdefs(t0, f, content@)), module_names(body)));
     }
 @after for 2
     proof { assert(body.take(body.len() as int) =~= body); }
@@ -252,6 +300,9 @@ impl FixtureDatabase {
     let ghost lm0 = self.line_index_cache.m();
     proof {
         assert(li_cache_wf(lm0));
+        // v4: the line index handed out for this text is one, and it is a Vec (length <= usize::MAX)
+        assert((*line_index)@.len() == (*line_index).len());
+        assert((*line_index)@ == src_line_index(content@) && is_line_index(ints((*line_index)@)));
         // v3: the parser handed back no Mod::Module: nothing was stored, f's entries stay removed (body_of == empty)
         if !is_module(ast_of(content@)) {
             assert(self.imports.m() == im0 && self.undeclared_fixtures.m() == un0);
@@ -307,6 +358,20 @@ impl FixtureDatabase {
         // so the reset is visible here only when no visitor runs (no top-level statement)
         parse_ok(content@) ==> final(self).undeclared_fixtures.m().remove(canon(pbv(&file_path))) == old(self).undeclared_fixtures.m().remove(canon(pbv(&file_path))),
         parse_ok(content@) && body_of(ast_of(content@)).len() == 0 ==> !final(self).undeclared_fixtures.m().contains_key(canon(pbv(&file_path))),
+        // v4 (C06 / C17 / C19) successful parse, f's OWN findings: the old list is dropped, then EXACTLY the scans of this text
+        // are pushed (stmts_vundecl, prelude/analyze_undecl.rs: visit_undecl folded over the top-level statements; each scan
+        // reads the definitions recorded so far on top of d0 and the module-level names of THIS text) -- no dependence on
+        // what was filed under f before
+        parse_ok(content@) ==> ({
+            let f = canon(pbv(&file_path));
+            let body = body_of(ast_of(content@));
+            let d0 = clean_defs_names(old(self).defs(), f, sbucket(old(self).fdefs(), f));
+            undecl_view(final(self).undeclared_fixtures.m()) == push_undecl(undecl_view(old(self).undeclared_fixtures.m()).remove(f), f,
+                stmts_vundecl(body, f, content@, d0, module_names(body)))
+        }),
+        // ... and the line index the positions of those findings were computed with is a line index (get_line_index, unit
+        // memo_keys, under the no-collision hypothesis): the hypothesis of the scanner's precision theorem
+        parse_ok(content@) ==> is_line_index(ints(src_line_index(content@))) && src_line_index(content@).len() <= usize::MAX,
 @*/
 
 /*@ extract src/fixtures/analyzer.rs analyze_file_fresh
@@ -347,6 +412,20 @@ impl FixtureDatabase {
         // so the reset is visible here only when no visitor runs (no top-level statement)
         parse_ok(content@) ==> final(self).undeclared_fixtures.m().remove(canon(pbv(&file_path))) == old(self).undeclared_fixtures.m().remove(canon(pbv(&file_path))),
         parse_ok(content@) && body_of(ast_of(content@)).len() == 0 ==> !final(self).undeclared_fixtures.m().contains_key(canon(pbv(&file_path))),
+        // v4 (C06 / C17 / C19) successful parse, f's OWN findings: the old list is dropped, then EXACTLY the scans of this text
+        // are pushed (stmts_vundecl, prelude/analyze_undecl.rs: visit_undecl folded over the top-level statements; each scan
+        // reads the definitions recorded so far on top of d0 and the module-level names of THIS text) -- no dependence on
+        // what was filed under f before
+        parse_ok(content@) ==> ({
+            let f = canon(pbv(&file_path));
+            let body = body_of(ast_of(content@));
+            let d0 = old(self).defs();
+            undecl_view(final(self).undeclared_fixtures.m()) == push_undecl(undecl_view(old(self).undeclared_fixtures.m()).remove(f), f,
+                stmts_vundecl(body, f, content@, d0, module_names(body)))
+        }),
+        // ... and the line index the positions of those findings were computed with is a line index (get_line_index, unit
+        // memo_keys, under the no-collision hypothesis): the hypothesis of the scanner's precision theorem
+        parse_ok(content@) ==> is_line_index(ints(src_line_index(content@))) && src_line_index(content@).len() <= usize::MAX,
 @*/
 
 // exec canary (must FAIL): the real analyze_file against 'imports[f] ACCUMULATES over the versions analysed (union)'
@@ -412,6 +491,45 @@ impl FixtureDatabase {
         li_no_collision(old(self).line_index_cache.m(), canon(pbv(&file_path)), content@),
         parse_ok(content@) ==> old(self).version() + 1 + stmts_vdefs(body_of(ast_of(content@)), canon(pbv(&file_path)), content@).len() <= u64::MAX,
     ensures parse_ok(content@) && body_of(ast_of(content@)).len() == 0 ==> final(self).undeclared_fixtures.m().contains_key(canon(pbv(&file_path))) == old(self).undeclared_fixtures.m().contains_key(canon(pbv(&file_path))),
+@*/
+
+// exec canary (must FAIL): 'the findings of f ACCUMULATE over analyses' (the old list is a lower bound of the new one)
+/*@ extract src/fixtures/analyzer.rs analyze_file
+@tags C06 C17 C19
+@as canary_analyze_file_findings_accumulate
+@recv mut
+@sig
+    requires old(self).version() < u64::MAX,
+        old(self).env_ok(), li_cache_wf(old(self).line_index_cache.m()), canon_cache_wf(old(self).canonical_path_cache.m()),
+        li_no_collision(old(self).line_index_cache.m(), canon(pbv(&file_path)), content@),
+        parse_ok(content@) ==> old(self).version() + 1 + stmts_vdefs(body_of(ast_of(content@)), canon(pbv(&file_path)), content@).len() <= u64::MAX,
+    ensures parse_ok(content@) ==> bucket(undecl_view(final(self).undeclared_fixtures.m()), canon(pbv(&file_path))).len() >= bucket(undecl_view(old(self).undeclared_fixtures.m()), canon(pbv(&file_path))).len(),
+@*/
+
+// exec canary (must FAIL): the same for the scan entry point (cleanup_previous = false does NOT keep the old findings either)
+/*@ extract src/fixtures/analyzer.rs analyze_file_fresh
+@tags C06 C17 C19
+@as canary_analyze_file_fresh_findings_accumulate
+@recv mut
+@sig
+    requires old(self).version() < u64::MAX,
+        old(self).env_ok(), li_cache_wf(old(self).line_index_cache.m()), canon_cache_wf(old(self).canonical_path_cache.m()),
+        li_no_collision(old(self).line_index_cache.m(), canon(pbv(&file_path)), content@),
+        parse_ok(content@) ==> old(self).version() + 1 + stmts_vdefs(body_of(ast_of(content@)), canon(pbv(&file_path)), content@).len() <= u64::MAX,
+    ensures parse_ok(content@) ==> bucket(undecl_view(final(self).undeclared_fixtures.m()), canon(pbv(&file_path))).len() >= bucket(undecl_view(old(self).undeclared_fixtures.m()), canon(pbv(&file_path))).len(),
+@*/
+
+// exec canary (must FAIL): 'a successful analysis of f changes the findings of another file'
+/*@ extract src/fixtures/analyzer.rs analyze_file
+@tags C06 C17 C19
+@as canary_analyze_file_other_findings_change
+@recv mut
+@sig
+    requires old(self).version() < u64::MAX,
+        old(self).env_ok(), li_cache_wf(old(self).line_index_cache.m()), canon_cache_wf(old(self).canonical_path_cache.m()),
+        li_no_collision(old(self).line_index_cache.m(), canon(pbv(&file_path)), content@),
+        parse_ok(content@) ==> old(self).version() + 1 + stmts_vdefs(body_of(ast_of(content@)), canon(pbv(&file_path)), content@).len() <= u64::MAX,
+    ensures parse_ok(content@) ==> undecl_view(final(self).undeclared_fixtures.m()).remove(canon(pbv(&file_path))) != undecl_view(old(self).undeclared_fixtures.m()).remove(canon(pbv(&file_path))),
 @*/
 
 /*@ extract src/fixtures/analyzer.rs analyze_file_internal
